@@ -3,9 +3,10 @@ import Insim.Model.Cancel
 namespace Insim.Drv.C19
 open Insim Insim.Drv Insim.Frame Insim.Conn Insim.Cancel
 
-def handle (ws : List String) : Option String :=
+def handle8 (ws : List String) : Option String :=
   match ws with
-  | ["cancel", m, v, tbl, evs, wevs, drops] =>
+  | ["cancel", m, v, tbl, evs, wevs, drops, fl] =>
+    let fls : List Bool := let t := (fl.drop 3).toString; if t = "-" then [] else (t.splitOn ",").map (fun x => x = "1")
     let ds : Option (List Nat) := if drops = "-" then some [] else (drops.splitOn ",").mapM String.toNat?
     match Conn.parseTable tbl, Conn.parseEvs evs, Conn.parseWEvs wevs, ds with
     | some t, some es, some wes, some ds =>
@@ -14,11 +15,16 @@ def handle (ws : List String) : Option String :=
         parse := fun body => match t.find? (fun kv => kv.1.tail = body) with
           | some kv => Conn.parseCls kv.2
           | none => .err .decode }
-      let st : St := { buf := [], revs := es, wevs := wes, out := [] }
+      let st : St := { buf := [], revs := es, wevs := wes, out := [], fevs := fls }
       let r := session cfg (fun n => ds.contains n) false 2000 0 st .idle
       let items := r.1.map (Conn.itemStr t)
       some ((if items.isEmpty then "-" else String.intercalate ";" items) ++ " | out=" ++ toHex r.2.out)
     | _, _, _, _ => some "bad-op"
   | _ => none
+
+def handle (ws : List String) : Option String :=
+  match ws with
+  | ["cancel", m, v, tbl, evs, wevs, drops] => handle8 ["cancel", m, v, tbl, evs, wevs, drops, "fl=-"]
+  | _ => handle8 ws
 
 end Insim.Drv.C19
